@@ -364,6 +364,8 @@ PreSpawn(r, t) ==
     THEN [r EXCEPT !.h = NoH, !.w = Spawn(r, t), !.rest = 0, !.dc = "none", !.outq = @ \o <<"150">>, !.ab = ""]
     ELSE r
 Pre(r, t) == PreAbor(PreSpawn(r, t))
+\* what the session may look like once handlers that have no reply of their own have (or have not yet) run
+Views(r, t) == {r, PreSpawn(r, t), PreAbor(r), Pre(r, t)}
 
 Content(p) == IF IsFileT(tree, p) THEN tree.f[p] ELSE <<>>
 
@@ -380,8 +382,7 @@ Released(r) == ~r.w.sock /\ ~r.w.fopen
 PoolPorts == {e[2] : e \in pool}
 NoFree(r) == UsePool /\ (pool = {} \/ \E e \in pool : e[2] \in r.h.viewed)
 
-ReplyEv(s, t, code) ==
-  LET r == PreAbor(ss[s]) IN
+ReplyWith(s, t, code, r) ==
   /\ r.ph \in {"open", "drain"} /\ At(t)
   /\ \/ \* a queued reply is written
         /\ r.outq # <<>> /\ Head(r.outq) = code
@@ -419,6 +420,8 @@ ReplyEv(s, t, code) ==
         /\ Upd(s, [r EXCEPT !.w = NoW]) /\ UNCHANGED <<uused, used, pool>>
   /\ UNCHANGED <<tree, table, srv>>
 
+ReplyEv(s, t, code) == \E r \in {ss[s], PreAbor(ss[s])} : ReplyWith(s, t, code, r)
+
 Confined(r, p) == r.user # "" /\ IsPrefix(UCfg[r.user].base, p)
 
 ModeFor(w) == IF w.v = "retr" THEN "rb" ELSE IF w.off > 0 THEN "r+b" ELSE IF w.v = "appe" THEN "ab" ELSE "wb"
@@ -441,7 +444,6 @@ FsMut(s, t, op, p, q, res) ==
 \* read-only backend calls: allowed only for a logged-in session that has work in progress
 FsQuery(s, t, p, res) ==
   LET r0 == ss[s]
-      r1 == Pre(r0, t)
       byH(r) == r.h.v # "" /\ r.h.v # "abor" /\ ~r.h.failed
       byW(r) == r.w.v # "" /\ r.w.st = "run" /\ r.w.sock
   IN
@@ -450,12 +452,12 @@ FsQuery(s, t, p, res) ==
         /\ IF res # "fault" THEN Upd(s, r0)
            ELSE \E rst \in (IF r0.h.v \in TransferVerbs THEN {r0.rest, 0} ELSE {r0.rest}) :
                   Upd(s, [r0 EXCEPT !.h.failed = TRUE, !.rest = rst])
-     \/ byW(r1) /\ Upd(s, IF res = "fault" THEN [r1 EXCEPT !.w.st = "failed"] ELSE r1)
+     \/ \E r1 \in Views(r0, t) : byW(r1) /\ Upd(s, IF res = "fault" THEN [r1 EXCEPT !.w.st = "failed"] ELSE r1)
   /\ UNCHANGED <<tree, uused, used, pool, table, srv>>
 
 \* file operations of a transfer worker
 FsFile(s, t, op, p, res, mode, off, data) ==
-  LET r == Pre(ss[s], t)  w == r.w IN
+  \E r \in Views(ss[s], t) : LET w == r.w IN
   /\ r.ph \in {"open", "dead"} /\ w.v \in TransferVerbs /\ At(t) /\ p = w.p
   /\ CASE op = "open" ->
             /\ w.st = "run" /\ w.sock /\ ~w.fopen /\ ~w.fdone /\ mode = ModeFor(w) /\ Confined(r, p)
@@ -520,7 +522,7 @@ LsnFail(s, t, port, why) ==
   /\ UNCHANGED <<tree, uused, used, table, srv>>
 
 DataOut(s, t, data) ==
-  LET r == Pre(ss[s], t)  w == r.w IN
+  \E r \in Views(ss[s], t) : LET w == r.w IN
   /\ r.ph = "open" /\ w.st = "run" /\ w.sock /\ At(t)
   /\ IF w.v = "retr"
        THEN /\ w.fopen /\ (w.off = 0 \/ w.seeked)
@@ -537,7 +539,7 @@ Entries(p) == {[name |-> q[Len(q)], kind |-> KindOf(q), size |-> IF IsFileT(tree
 \* the complete listing sent on the data connection, parsed by the peer
 Listing(s, t, entries) ==
   /\ At(t)
-  /\ \E r \in {PreAbor(ss[s]), Pre(ss[s], t)} : LET w == r.w IN
+  /\ \E r \in Views(ss[s], t) : LET w == r.w IN
      IF w.v \in ListVerbs /\ w.st = "run" /\ w.sock
        THEN /\ {[name |-> e.name, kind |-> e.kind, size |-> IF e.kind = "file" THEN e.size ELSE 0] : e \in entries}
                  = Entries(w.p)
@@ -554,7 +556,7 @@ TeardownCause(r, t) ==
 \* the server closes one of the session's data sockets
 DataClose(s, t) ==
   /\ At(t)
-  /\ \E r \in {PreAbor(ss[s]), Pre(ss[s], t)} : LET w == r.w IN
+  /\ \E r \in Views(ss[s], t) : LET w == r.w IN
      \/ r.xd > 0 /\ Upd(s, [r EXCEPT !.xd = @ - 1])
      \/ /\ w.sock
         /\ IF w.st = "run" /\ Moved(r) THEN Upd(s, [r EXCEPT !.w.sock = FALSE])
